@@ -186,6 +186,12 @@ STAGES = {
                                                     POLICIES='{"mandatory", "none"}', STARTTLSADV='{TRUE}',
                                                     AUTHTYPES='{"PLAIN-NOENC", "LOGIN-NOENC", "CRAM-MD5", "XOAUTH2", "SCRAM-SHA-256", "AUTODISCOVER"}',
                                                     AUTHLISTS='{{"PLAIN", "LOGIN", "CRAM-MD5", "XOAUTH2", "SCRAM-SHA-1", "SCRAM-SHA-256", "SCRAM-SHA-1-PLUS", "SCRAM-SHA-256-PLUS"}}', LOGAUTH='BOOLEAN', LOGGERS='{"capture", "std", "json"}')),
+            # credentials of several hundred characters: the lines of the exchange exceed 512 octets
+            ('long-credentials', 'Session', cfg(OP='"RawAuth"', N='1', MAXR='1', BUDGET='1', CAPSETS='{{}}', CLASSES='{"p5"}', VARIANTS='{"longcred"}',
+                                                AUTHTYPES='{"PLAIN-NOENC", "LOGIN-NOENC", "CRAM-MD5", "XOAUTH2", "SCRAM-SHA-256"}',
+                                                AUTHLISTS='{{"PLAIN", "LOGIN", "CRAM-MD5", "XOAUTH2", "SCRAM-SHA-1", "SCRAM-SHA-256", "SCRAM-SHA-1-PLUS", "SCRAM-SHA-256-PLUS"}}', LOGAUTH='BOOLEAN', LOGGERS='{"capture", "std", "json"}')),
+            ('long-credentials-dial', 'Session', cfg(OP='"Dial"', N='1', MAXR='1', BUDGET='0', CAPSETS='{{}}', VARIANTS='{"longcred"}',
+                                                     AUTHTYPES='{"PLAIN-NOENC", "LOGIN-NOENC", "XOAUTH2"}', AUTHLISTS='{{"PLAIN", "LOGIN", "XOAUTH2"}}', LOGAUTH='BOOLEAN', LOGGERS='{"capture", "json"}')),
             # a second smtp.Client.Auth on the same client after the first one failed
             ('rawauth-retry-b1', 'Session', cfg(OP='"RawAuth"', N='1', MAXR='1', BUDGET='1', CAPSETS='{{}}', CLASSES='{"p5", "mal", "t4"}', VARIANTS='{"authretry"}',
                                                 AUTHTYPES='{"PLAIN-NOENC", "LOGIN-NOENC", "CRAM-MD5", "XOAUTH2", "SCRAM-SHA-256"}',
